@@ -245,6 +245,26 @@ pub fn roundtrip_with_params(
     ))
 }
 
+/// Codes the corrections for `data` under the given parameter vector (instead of the
+/// estimator's). Returns (plaintext, correction data, bytes consumed by the parser); the
+/// result has the same layout as what `decompress_deflate_stream` returns.
+pub fn corrections_with_params(
+    data: &[u8],
+    vector: &[u32],
+) -> Result<(Vec<u8>, Vec<u8>, usize), PreflateError> {
+    let params = unflatten_params(vector)?;
+    let contents = parse_deflate(data, 0)?;
+
+    let mut cabac_encoded = Vec::new();
+    let mut enc = PredictionEncoderCabac::new(VP8Writer::new(&mut cabac_encoded).unwrap());
+    params.write(&mut enc);
+    encode_mispredictions(&contents, &params, &mut enc)?;
+    enc.finish();
+    drop(enc);
+
+    Ok((contents.plain_text, cabac_encoded, contents.compressed_size))
+}
+
 /// one operation of the correction codec
 #[derive(Copy, Clone, Debug, Eq, PartialEq)]
 pub enum CabacOp {
